@@ -114,6 +114,32 @@ theorem kube_publishes_current (evs : List KEv) :
        | some p => ∀ x, x ∈ p ↔ x ∈ h.endpoints) :=
   kube_spec evs
 
+/-- the executable registry the driver's monitor evaluates on the implementation's trace (association lists) is
+the abstract registry of the theorems above, and its value list is what `Shows` describes. -/
+theorem monitor_registry_is_spec (evs : List Ev) :
+    (∀ k, (registry evs).get k = Reg.run evs k)
+    ∧ (∀ v, v ∈ viewList (registry evs) ↔ (Reg.run evs).Shows v) := by
+  have key : ∀ (evs : List Ev) (m : Map Nat) (r : Reg), (Map.keys m).Nodup → (∀ k, m.get k = r k) →
+      (Map.keys (evs.foldl Spec.apply m)).Nodup ∧ ∀ k, (evs.foldl Spec.apply m).get k = (evs.foldl Reg.apply r) k := by
+    intro evs
+    induction evs with
+    | nil => intro m r h1 h2; exact ⟨h1, h2⟩
+    | cons ev t ih =>
+      intro m r h1 h2
+      simp only [List.foldl_cons]
+      exact ih _ _ (stepValues_nodup m h1 ev) (stepValues_get m r h2 ev)
+  obtain ⟨hn', hg'⟩ := key evs [] Reg.empty (by simp [Map.keys]) (fun _ => rfl)
+  have hn : (Map.keys (registry evs)).Nodup := hn'
+  have hg : ∀ k, (registry evs).get k = Reg.run evs k := hg'
+  refine ⟨hg, fun v => ?_⟩
+  unfold viewList Reg.Shows
+  rw [mem_canonSet, List.mem_map]
+  constructor
+  · rintro ⟨p, hp, rfl⟩
+    exact ⟨p.1, by rw [← hg]; exact (Map.mem_iff_get _ hn p.1 p.2).mp hp⟩
+  · rintro ⟨k, hk⟩
+    exact ⟨(k, v), (Map.mem_iff_get _ hn k v).mpr (by rw [hg]; exact hk), rfl⟩
+
 /-! ### The defect of the pinned commit (machine-checked witnesses; replayed on the real code) -/
 
 /-- `k` registered with `v1`, then updated in place to `v2`: the pinned `addKv` still shows `v1`. -/
